@@ -16,6 +16,9 @@ def run(chk, replay):
     if replay and "agent_case" in json.load(open(replay)).get("case", {}):
         import p_c08
         p_c08.agent_level(chk, PROP, 0, only=json.load(open(replay))["case"]["agent_case"]); return
+    if replay and "cmd_case" in json.load(open(replay)).get("case", {}):
+        import x_c15_cmd
+        x_c15_cmd.run(chk, PROP, only=json.load(open(replay))["case"]["cmd_case"]); return
     chk.trusted = common.TRUSTED_COMMON + ["quiescence discipline of the scheduler harness (one completion released at a time)"]
     chk.assumptions = [sched.NOTES.get(PROP, "")]
     common.lean_obligations(chk, "BdModel/Props/%s.lean" % PROP,
@@ -31,3 +34,7 @@ def run(chk, replay):
         # shared stream's format and go through sched.run_stream above.
         import c15_repeat
         c15_repeat.run(chk, PROP)
+        # the limit of an installation's base configuration reaches the run through the REAL `start` (config.Load -> resolver ->
+        # cfg.BaseConfig -> dag.Load), per home-directory layout (lib/x_c15_cmd.py; uses no PRNG)
+        import x_c15_cmd
+        x_c15_cmd.run(chk, PROP)
